@@ -467,6 +467,8 @@ def impl_write(I, w, op):
     if k == "bytes":
         return w.write_bytes(op[1], bytes.fromhex(op[2]))
     if k == "bits":
+        if len(op) > 3 and op[3] == "little":
+            return w.write_bitarray(op[1], I.bitarray(list(op[2]), endian="little"))
         return w.write_bitarray(op[1], I.bitarray(list(op[2])))
     if k == "align":
         _, b = w.tell()
@@ -643,6 +645,16 @@ def writer_values(quick):
         for ln in range(0, n + 2):
             for bs in itertools.product((0, 1), repeat=ln):
                 ops.append(("bits", n, tuple(bs)))
+    # longer bit arrays (whole bytes after the next byte boundary), in both bitarray endiannesses:
+    # the bits written are the array's *items* in order, whatever its in-memory byte layout
+    for n in (8, 9, 16, 17, 24, 31):
+        for pat in ((1,) + (0,) * (n - 1), (0,) * (n - 1) + (1,), tuple((i * 5 // 3) % 2 for i in range(n)), (1, 1, 0, 1, 0, 0, 0, 1, 0, 1) + (0,) * max(0, n - 10)):
+            pat = tuple(pat[:n])
+            for endian in ("big", "little"):
+                ops.append(("bits", n, pat, endian))
+    for n in range(0, 6):
+        for bs in itertools.product((0, 1), repeat=n):
+            ops.append(("bits", n, tuple(bs), "little"))
     return ops
 
 
